@@ -202,8 +202,10 @@ class PcaChain(MetropolisChain):
             "angles_history": array(self.angles_history),
             "update_history": array(self.update_history),
             "directions": array(self.directions),
-            "covar": self.covar,
         }
+        # the covariance estimate only exists after the first direction update
+        if hasattr(self, "covar"):
+            items["covar"] = self.covar
 
         if self.bounds is not None:
             items |= {
@@ -268,7 +270,8 @@ class PcaChain(MetropolisChain):
         chain.directions = [
             D["directions"][i, :] for i in range(D["directions"].shape[0])
         ]
-        chain.covar = D["covar"]
+        if "covar" in D:
+            chain.covar = D["covar"]
 
         # re-build all the parameter objects
         chain.params = [
